@@ -355,8 +355,8 @@ theorem trashFileIn_home {c : PutCfg} {fs : FS} {H P : CPath} {n : Name} (W : Ho
   have hsec : securityCheck s.fs c.cwd (homeCand s.fs c H) = none := by simp [securityCheck, homeCand]
   have hgate : gateCheck s.fs c (toStr (dev s.fs P)) (homeCand s.fs c H) = none := by
     refine (C07.gate_same_volume s.fs c _ (homeCand s.fs c H) rfl).2 ?_
-    show volumeOf s.fs c.cwd (realpathStr s.fs c.cwd (normpath (homeStr H))) = _
-    rw [homeStr_eq W.homeNotRoot, normpath_toStr _ gT, realpathStr_plain _ _ _ pT gT,
+    show volumeOf s.fs c.cwd (realpathStr s.fs c.cwd (homeStr H)) = _
+    rw [homeStr_eq W.homeNotRoot, realpathStr_plain _ _ _ pT gT,
       volumeOf_is_device_root _ _ _ pT gT W.rootMounted, A.sameVolume]
   rw [trashFileIn, run_read_bind]
   simp only [hsec, hgate]
